@@ -10,6 +10,7 @@ CONSTANTS
   FixSave = TRUE
   FixRecover = TRUE
   FixRelease = FALSE
+  SplitCleanup = FALSE
 VIEW View
 INVARIANT AccountedEqualsLive
 INVARIANT Coherent
